@@ -29,6 +29,7 @@ type hoDriver struct {
 	r    *rand.Rand
 	run  int
 	a, b *Session // node and replica
+	m    *Session // a second replica that is offered the mutated proposals; its engine log never takes part in a verdict
 	lg   *lockGen
 	bg   *bridgeGen
 	opts HandoverOpts
@@ -80,8 +81,15 @@ func handoverHistory(w *tracew.Writer, seed int64, run, depth int, o HandoverOpt
 		return err
 	}
 	defer b.C.Close()
+	// Mutated proposals fail fast in ProcessProposal while the engine request of the same call may still be on its way;
+	// such a late request must not land in an engine log that is compared (replica B's executions are part of C07).
+	m, _, err := newHandoverSession(seed, run)
+	if err != nil {
+		return err
+	}
+	defer m.C.Close()
 	r := rand.New(rand.NewSource(seed ^ 0x5eed))
-	d := &hoDriver{w: w, r: r, run: run, a: a, b: b, opts: o}
+	d := &hoDriver{w: w, r: r, run: run, a: a, b: b, m: m, opts: o}
 	d.lg = &lockGen{s: a, r: r, nextID: 1, nv: 5, clean: true}
 	if o.Mode == "burst" {
 		d.lg.mode = "burst"
@@ -422,7 +430,7 @@ func (d *hoDriver) height() error {
 		desc := d.describe(a.C, proposal, "VALID", true, true)
 		if ferr != nil {
 			d.emit("finalize", Ev{"h": h, "proposer": proposer + 1, "p": desc, "msgOk": false, "modulesOk": d.lg.clean, "endNp": endNp, "endFcu": endFcu,
-				"err": true, "errText": short(ferr.Error()), "engine": engineView(calls), "blockHash": project.H6(blkA.Hash(a.C.ChainID))})
+				"err": true, "errText": short(ferr.Error()), "engine": engineView(calls), "blockHash": project.H6(blkA.Hash(a.C.ChainID)), "byz": ""})
 			// a real node dies here; it comes back with the committed state and the block is retried
 			d.emit("crash", Ev{})
 			if err := a.C.Restart(); err != nil {
@@ -436,7 +444,7 @@ func (d *hoDriver) height() error {
 		}
 		msgOk := res.TxResults[0].Code == 0
 		d.emit("finalize", Ev{"h": h, "proposer": proposer + 1, "p": desc, "msgOk": msgOk, "modulesOk": d.lg.clean, "endNp": endNp, "endFcu": endFcu,
-			"err": false, "errText": short(res.TxResults[0].Log), "engine": engineView(calls), "blockHash": project.H6(blkA.Hash(a.C.ChainID))})
+			"err": false, "errText": short(res.TxResults[0].Log), "engine": engineView(calls), "blockHash": project.H6(blkA.Hash(a.C.ChainID)), "byz": ""})
 		key := hex.EncodeToString(prevApp) + "/" + hex.EncodeToString(blkA.Hash(a.C.ChainID)[:6])
 		d.emit("exec", Ev{"key": key, "res": execDigest(res, calls, a.C), "replica": "A", "attempt": attempt, "detail": execDetail(res)})
 		cometErr := a.C.ApplyUpdates(h, res.ValidatorUpdates)
@@ -470,7 +478,7 @@ func (d *hoDriver) height() error {
 			}
 			calls2 := a.C.Eng.TakeLog()
 			d.emit("finalize", Ev{"h": h, "proposer": proposer + 1, "p": desc, "msgOk": res2.TxResults[0].Code == 0, "modulesOk": d.lg.clean, "endNp": "VALID", "endFcu": "VALID",
-				"err": false, "errText": "", "engine": engineView(calls2), "blockHash": project.H6(blkA.Hash(a.C.ChainID))})
+				"err": false, "errText": "", "engine": engineView(calls2), "blockHash": project.H6(blkA.Hash(a.C.ChainID)), "byz": ""})
 			d.emit("exec", Ev{"key": key, "res": execDigest(res2, calls2, a.C), "replica": "A", "attempt": attempt + k + 1, "detail": execDetail(res2)})
 		}
 		// the replica executes the same block fault-free
@@ -482,14 +490,24 @@ func (d *hoDriver) height() error {
 		}
 		d.emit("exec", Ev{"key": hex.EncodeToString(prevApp) + "/" + hex.EncodeToString(blkB.Hash(b.C.ChainID)[:6]), "res": execDigest(resB, b.C.Eng.TakeLog(), b.C), "replica": "B", "attempt": 0, "detail": execDetail(resB)})
 		b.C.ApplyUpdates(h, resB.ValidatorUpdates)
+		blkM := mkBlock(d.m.C, proposal, round)
+		resM, err := d.m.C.Finalize(blkM)
+		if err != nil {
+			return fmt.Errorf("second replica finalize: %w", err)
+		}
+		d.m.C.ApplyUpdates(h, resM.ValidatorUpdates)
 		if err := a.C.Commit(); err != nil {
 			return err
 		}
 		if err := b.C.Commit(); err != nil {
 			return err
 		}
+		if err := d.m.C.Commit(); err != nil {
+			return err
+		}
 		a.C.Eng.TakeLog()
 		b.C.Eng.TakeLog()
+		d.m.C.Eng.TakeLog()
 		if d.fill > 0 {
 			d.fill -= len(proposal) - 1
 			if d.fill < 0 {
@@ -502,7 +520,7 @@ func (d *hoDriver) height() error {
 
 // mutatedProcess builds one mutated variant of the honest proposal and offers it to the replica.
 func (d *hoDriver) mutatedProcess(h int64, round, proposer int, now time.Time, votes []sim.Vote, misb []abci.Misbehavior, honest [][]byte) error {
-	b, r := d.b, d.r
+	b, r := d.m, d.r
 	c := b.C
 	pl, err := d.a.PayloadOf(honest[0])
 	if err != nil {
@@ -699,6 +717,34 @@ func (d *hoDriver) mutatedProcess(h int64, round, proposer int, now time.Time, v
 	c.Eng.SetFault(nil)
 	c.Eng.TakeLog()
 	d.emit("process", Ev{"h": h, "proposer": proposer + 1, "replica": "B", "mut": mut, "accept": accept, "p": d.describe(c, txs, answer, sigOk, restOk)})
+	// A block other validators decided although this node would have refused it: FinalizeBlock must still apply its own
+	// checks to the execution-block message (the head moves only by valid children, C09) and must not fail. The replica
+	// then crashes before Commit, so nothing of it persists.
+	byzFinal := map[string]bool{"wrongParent": true, "wrongNumber": true, "wrongBeacon": true, "wrongProposer": true, "wrongRecipient": true,
+		"recipientPadded": true, "recipientShort": true, "sysAdded": true, "sysRemoved": true, "sysAltered": true, "countByte": true,
+		"reqGarbage": true, "gas0": true, "gas2": true, "futureTime": true, "blob": true, "timeoutWrong": true}
+	if byzFinal[mut] && h > c.InitialHeight && r.Intn(2) == 0 {
+		c.Eng.TakeLog()
+		c.Eng.ResetCounters()
+		res, ferr := c.Finalize(blk)
+		calls := c.Eng.TakeLog()
+		desc := d.describe(c, txs, "VALID", sigOk, restOk)
+		modulesOk := d.lg.clean && mut != "gas0" && mut != "gas2" && mut != "reqGarbage"
+		if ferr != nil {
+			d.emit("finalize", Ev{"h": h, "proposer": proposer + 1, "p": desc, "msgOk": false, "modulesOk": modulesOk, "endNp": "VALID", "endFcu": "VALID",
+				"err": true, "errText": short(ferr.Error()), "engine": engineView(calls), "blockHash": project.H6(blk.Hash(c.ChainID)), "byz": mut})
+		} else {
+			d.emit("finalize", Ev{"h": h, "proposer": proposer + 1, "p": desc, "msgOk": res.TxResults[0].Code == 0, "modulesOk": modulesOk, "endNp": "VALID", "endFcu": "VALID",
+				"err": false, "errText": short(res.TxResults[0].Log), "engine": engineView(calls), "blockHash": project.H6(blk.Hash(c.ChainID)), "byz": mut})
+		}
+		d.emit("crash", Ev{})
+		if err := c.Restart(); err != nil {
+			return err
+		}
+		if err := d.committed("restart", c); err != nil {
+			return err
+		}
+	}
 	return nil
 }
 
